@@ -4,9 +4,10 @@ namespace C10
 open Go
 
 /-- Values travel in prefix notation, space separated:
-`I <int>` | `S <hex>` | `B T|F` | `M <id>` | `L <n> v₁ … vₙ`. -/
+`I <int>` | `F <int>` (the float n.0) | `S <hex>` | `B T|F` | `M <id>` | `L <n> v₁ … vₙ`. -/
 partial def parseVal : List String → Option (Val × List String)
   | "I" :: n :: rest => n.toInt?.map fun i => (.int i, rest)
+  | "F" :: n :: rest => n.toInt?.map fun i => (.flt i, rest)
   | "S" :: h :: rest => (hexDecode h).map fun b => (.str b, rest)
   | "B" :: b :: rest => some (.bool (b == "T"), rest)
   | "M" :: n :: rest => n.toNat?.map fun i => (.map i, rest)
@@ -24,6 +25,7 @@ partial def parseVal : List String → Option (Val × List String)
 
 partial def showVal : Val → String
   | .int i => s!"I {i}"
+  | .flt i => s!"F {i}"
   | .str b => s!"S {hexEnc b}"
   | .bool b => if b then "B T" else "B F"
   | .map i => s!"M {i}"
